@@ -5,6 +5,7 @@ use crate::common::*;
 use arbitrary::Unstructured;
 use serde::{Deserialize, Serialize};
 use std::collections::BTreeMap;
+use syltmodel::ast::*;
 use syltmodel::gen::{Gen, GenCfg};
 use syltmodel::print::Plan as SurfacePlan;
 use vcore::{compile, Check, Labels, Outcome, Plan, Project, Stats, Step, Tape, Tier, Verdict};
@@ -18,7 +19,10 @@ use cat::{Sel, V3, EMARK, SMARK};
 pub struct C04;
 pub const CHECK: C04 = C04;
 pub fn plan(t: Tier) -> Plan {
-    Plan::new(t.pick(4_000, 80_000), t.pick(2600, 4000))
+    let mut p = Plan::new(t.pick(4_000, 80_000), t.pick(2600, 4000));
+    // the structural shrinker (own chain removal, hoisting, GenAST shrinking) does the work; keep tape shrinking short
+    p.max_shrink_iters = 40;
+    p
 }
 
 #[derive(Clone, Serialize, Deserialize)]
@@ -45,6 +49,11 @@ pub struct Case {
     pub expect: String,
     /// generated with the known-finding avoidance switches off
     pub raw: bool,
+    /// the plant without its own nesting chain (used by the shrinker)
+    #[serde(default)]
+    pub flat_stmt: Option<V3>,
+    #[serde(default)]
+    pub flat_prelude: Option<V3>,
     /// the violating project as generated, for human readers (re-rendered on evaluation)
     #[serde(default)]
     pub bad_files: BTreeMap<String, String>,
@@ -62,11 +71,6 @@ fn pick<'a>(v: &'a V3, w: Which) -> &'a str {
         Which::Twin => &v.twin,
         Which::Bad => &v.bad,
     }
-}
-
-fn marker_count(case: &Case) -> (usize, usize) {
-    let text = render(&case.prog.prog, &case.prog.plan).text;
-    (text.matches(SMARK).count(), text.matches(EMARK).count())
 }
 
 fn project(case: &Case, rendered: &str, w: Which) -> Project {
@@ -162,6 +166,8 @@ impl Check for C04 {
             mode: b.mode.to_string(),
             expect: b.expect.to_string(),
             raw,
+            flat_stmt: b.flat_stmt,
+            flat_prelude: b.flat_prelude,
             bad_files: BTreeMap::new(),
         };
         case.bad_files = project(&case, &case.prog.source, Which::Bad).files;
@@ -274,17 +280,58 @@ impl Check for C04 {
     }
 
     fn simplify_at(&self, case: &Case, idx: usize) -> Step<Case> {
-        match shrink_step(&case.prog, idx) {
-            Step::End => Step::End,
-            Step::Skip => Step::Skip,
-            Step::Candidate(p) => {
+        let finish = |mut c: Case| {
+            c.prog.source = render(&c.prog.prog, &c.prog.plan).text;
+            c.bad_files = project(&c, &c.prog.source, Which::Bad).files;
+            Step::Candidate(c)
+        };
+        match idx {
+            // 0: drop the own nesting chain
+            0 => {
+                if case.nest.is_empty() || (case.flat_stmt.is_none() && case.flat_prelude.is_none()) {
+                    return Step::Skip;
+                }
                 let mut c = case.clone();
-                c.prog = p;
-                let (ns, ne) = marker_count(&c);
-                let _ = (ns, ne);
-                c.bad_files = project(&c, &c.prog.source, Which::Bad).files;
-                Step::Candidate(c)
+                if let Some(f) = c.flat_stmt.take() {
+                    c.stmt = f;
+                }
+                if let Some(f) = c.flat_prelude.take() {
+                    c.prelude = f;
+                }
+                c.depth = c.depth.saturating_sub(c.nest.len());
+                c.nest.clear();
+                finish(c)
             }
+            // 1: hoist a statement plant into an otherwise empty `start` (pure `start` when the site was pure, so
+            // that the legality of the plant is not changed by the move)
+            1 => {
+                let has_stmt = !case.stmt.bad.is_empty() || !case.stmt.twin.is_empty();
+                if !has_stmt || case.prog_path != case.main {
+                    return Step::Skip;
+                }
+                let pure = case.mode == "base-pure";
+                let mut p = Program::default();
+                let v = p.new_var("start".into(), Ty::Fn(vec![], Box::new(Ty::Void), pure), VarKind::Global, false);
+                let def = FnDef { params: vec![], ret: Ty::Void, body: Block { stmts: vec![Stmt::Raw(SMARK.to_string())], value: None }, pure };
+                p.globals.push(Global { var: v, mutable: false, value: e(Ty::Fn(vec![], Box::new(Ty::Void), pure), EKind::Lambda(Box::new(def))) });
+                if p == case.prog.prog {
+                    return Step::Skip;
+                }
+                let mut c = case.clone();
+                c.prog.prog = p;
+                c.placement = "FnBody".into();
+                c.depth = c.nest.len();
+                finish(c)
+            }
+            _ => match shrink_step(&case.prog, idx - 2) {
+                Step::End => Step::End,
+                Step::Skip => Step::Skip,
+                Step::Candidate(p) => {
+                    let mut c = case.clone();
+                    c.prog = p;
+                    finish(c)
+                }
+            },
         }
     }
 
